@@ -33,6 +33,16 @@ pub mod transport { pub trait ConnectionStream {} }
 pub uninterp spec fn validated(r: PublicKey) -> bool;
 /// the block list
 pub uninterp spec fn blocked(r: PublicKey) -> bool;
+/// commit of the `rad/sigrefs` currently stored locally for `r`, if any
+pub uninterp spec fn stored_at(r: PublicKey) -> Option<Oid>;
+/// commit of the `rad/sigrefs` the serving peer advertised for `r` in this fetch
+pub uninterp spec fn adv_at(r: PublicKey) -> Oid;
+/// git ancestry of two commits (libgit2)
+pub uninterp spec fn anc(old: Oid, new: Oid) -> repository::Ancestry;
+/// from the statement (C01 'rewound or diverged sigrefs', C02): the advertised sigrefs do not rewind or fork the stored ones
+pub open spec fn fresh(r: PublicKey) -> bool {
+    stored_at(r) is None || !(anc(stored_at(r)->Some_0, adv_at(r)) is Behind || anc(stored_at(r)->Some_0, adv_at(r)) is Diverged)
+}
 
 pub struct Doc { pub t: usize }
 impl Doc {
@@ -80,9 +90,11 @@ pub mod repository {
     use crate::*;
     #[derive(Clone, Copy, Debug, PartialEq, Eq)] pub enum Ancestry { Equal, Ahead, Behind, Diverged }
     pub mod error { pub struct Ancestry; pub struct Update; }
-    /// git ancestry of the stored vs. advertised `rad/sigrefs` (libgit2): result arbitrary
+    /// git ancestry of the stored vs. advertised `rad/sigrefs` (libgit2): ASSUMED to decide the ghost relation `anc`
     #[verifier::external_body]
-    pub fn ancestry(repo: &Repository, old: Oid, new: Oid) -> Result<Ancestry, error::Ancestry> { unimplemented!() }
+    pub fn ancestry(repo: &Repository, old: Oid, new: Oid) -> (r: Result<Ancestry, error::Ancestry>)
+        ensures r is Ok ==> r->Ok_0 == anc(old, new)
+    { unimplemented!() }
 }
 /// SINK (C01/C02): applies the surviving tips to the real git repository. From the statements: only if at least
 /// `threshold` delegates have valid signed refs, and every namespace that is written was validated against its
@@ -96,11 +108,14 @@ pub fn vx_update(repo: &Repository, tips: &BTreeMap<PublicKey, Vec<Update<'stati
         valid.finite() && valid.len() >= doc_threshold - (if local_is_delegate { 1nat } else { 0nat }),                                                     //[C02]
         forall|r: PublicKey| valid.contains(r) ==> !bad.contains(r),                                           //[C02]
         forall|r: PublicKey| tips@.contains_key(r) && offered.contains(r) && !blocked(r) ==> validated(r),     //[C01]
+        forall|r: PublicKey| tips@.contains_key(r) && offered.contains(r) && !blocked(r) ==> fresh(r),         //[C01,C02]
 { unimplemented!() }
 pub struct SignedRefsAt { pub at: Oid, pub remote: PublicKey }
 impl SignedRefsAt {
     /// the signed refs currently stored for `remote` in the local repository, if any
-    #[verifier::external_body] pub fn load(remote: PublicKey, repo: &Repository) -> Result<Option<SignedRefsAt>, RefsError> { unimplemented!() }
+    #[verifier::external_body] pub fn load(remote: PublicKey, repo: &Repository) -> (r: Result<Option<SignedRefsAt>, RefsError>)
+        ensures r is Ok ==> ((r->Ok_0 is Some) == (stored_at(remote) is Some)) && (r->Ok_0 is Some ==> r->Ok_0->Some_0.at == stored_at(remote)->Some_0 && r->Ok_0->Some_0.remote == remote)
+    { unimplemented!() }
 }
 pub struct Validations;
 impl Validations {
@@ -136,7 +151,7 @@ pub mod sigrefs {
     #[verifier::external_body]
     pub fn vx_load_status(st: DelegateStatus<()>, cached: &Cached, bad: &mut Ghost<Set<PublicKey>>) -> (r: Result<DelegateStatus<Option<SignedRefsAt>>, RefsError>)
         ensures r is Ok ==> r->Ok_0.rem() == st.rem() && (r->Ok_0 is Delegate) == (st is Delegate)
-            && (r->Ok_0.dat() is Some ==> r->Ok_0.dat()->Some_0.remote == st.rem()),
+            && (r->Ok_0.dat() is Some ==> r->Ok_0.dat()->Some_0.remote == st.rem() && r->Ok_0.dat()->Some_0.at == adv_at(st.rem())),
             final(bad)@ == (if r is Ok && r->Ok_0.dat() is None { old(bad)@.insert(st.rem()) } else { old(bad)@ }),
     { unimplemented!() }
     /// `sigrefs::validate`: compares the fetched namespace with its signed refs (iterator code over git2, not
@@ -238,6 +253,7 @@ pub enum FetchResult {
 //@          handle.local_spec() == old(handle).local_spec()
 //@          # every remote already visited is validated, blocked, or no longer has tips to apply
 //@          forall|r: PublicKey| __vx_it1.seen@.contains(r) && self.tips@.contains_key(r) && !blocked(r) ==> validated(r) //[C01]
+//@          forall|r: PublicKey| __vx_it1.seen@.contains(r) && self.tips@.contains_key(r) && !blocked(r) ==> fresh(r) //[C01,C02]
 //@          # C02: nothing the oracles found missing/invalid is counted as a valid delegate
 //@          valid_delegates@.subset_of(delegates@) //[C02]
 //@          forall|r: PublicKey| vx_bad@.contains(r) ==> __vx_it1.seen@.contains(r) && !valid_delegates@.contains(r) //[C02]
